@@ -1,6 +1,7 @@
 package main
 
 import (
+	"strings"
 	"bufio"
 	"bytes"
 	"encoding/base64"
@@ -235,6 +236,12 @@ func xrun(args []string) error {
 				uniqueSeqs(&w)
 				wls = append(wls, w)
 			}
+			// two recordings with records of several hundred KiB (larger than what one read of a pipe or socket delivers):
+			// they are also handed to the streaming reader through a raw, unbuffered pipe
+			for k, chunked := range []bool{false, true} {
+				w := wl.Workload{ID: fmt.Sprintf("g2pbig%d-%d", *seed, k), Cfg: wl.Cfg{Chunked: chunked, ChunkSize: 1 << 20, CRC: true}, Calls: g.BulkCalls(1500)}
+				wls = append(wls, w)
+			}
 		}
 		type job struct {
 			ID      string `json:"id"`
@@ -242,6 +249,7 @@ func xrun(args []string) error {
 			Seek    bool   `json:"seek"`
 			SeekAtt bool   `json:"seek_att"`
 			SeekMd  bool   `json:"seek_md"`
+			RawPipe bool   `json:"rawpipe"`
 		}
 		var jobs []job
 		traces := map[string]*wl.Trace{}
@@ -262,7 +270,7 @@ func xrun(args []string) error {
 			}
 			c := w.Cfg
 			idx := c.Chunked && !c.SkipChunkIdx && !c.SkipRepChannels && !c.SkipRepSchemas
-			jobs = append(jobs, job{w.ID, p, idx, idx && !c.SkipAttIdx, idx && !c.SkipMdIdx})
+			jobs = append(jobs, job{w.ID, p, idx, idx && !c.SkipAttIdx, idx && !c.SkipMdIdx, strings.HasPrefix(w.ID, "g2pbig") || len(jobs)%10 == 3})
 			traces[w.ID] = tr
 		}
 		jb, _ := json.Marshal(jobs)
